@@ -51,7 +51,7 @@ type act struct {
 	Delay []int // race: spin iterations of each goroutine after the barrier (seeded skew)
 }
 
-const nCall = 3 // goroutines for the non-blocking calls of a step (a race may need several)
+const nCall = 4 // goroutines for the non-blocking calls of a step (a race may need several)
 
 // executors are reused from trace to trace as long as every worker came back
 var xpool = map[int][]*qx.Exec{}
@@ -141,8 +141,7 @@ type lworld struct {
 	// the steps still to come: the plan, then the drain
 	plan   []act
 	dstate int
-	dleft  int
-	dfree  int
+	dq     []act
 }
 
 func (a act) rec() tr.E {
@@ -306,17 +305,29 @@ func (wd *lworld) collect() {
 		case !wd.busy[c]:
 			st[c-1] = tr.E{"s": "idle", "r": none()}
 		default:
-			if r, ok := wd.x.Take(c); ok {
-				wd.busy[c] = false
-				re := r.(tr.E)
-				st[c-1] = tr.E{"s": "ret", "r": re}
-				if c == a.C && a.Op == "pop" {
-					rep = re
+			for tries := 0; ; tries++ {
+				if r, ok := wd.x.Take(c); ok {
+					wd.busy[c] = false
+					re := r.(tr.E)
+					st[c-1] = tr.E{"s": "ret", "r": re}
+					if c == a.C && a.Op == "pop" {
+						rep = re
+					}
+					break
 				}
-			} else {
 				// global quiescence and no reply: the consumer is blocked inside its Pop, whatever
-				// primitive the queue waits on (the wait reason is logged, not compared)
-				st[c-1] = tr.E{"s": "parked", "r": none(), "why": wd.x.WaitState(c)}
+				// primitive the queue waits on (the wait reason is logged, not compared).  "Parked" is
+				// only logged for a goroutine that the runtime reports blocked right now; anything
+				// else means the picture is not final yet: wait for quiescence again.
+				why := wd.x.WaitState(c)
+				if blockedState[why] {
+					st[c-1] = tr.E{"s": "parked", "r": none(), "why": why}
+					break
+				}
+				if tries >= 8 {
+					tr.Fatal("consumer %d neither returned nor blocked: %q", c, why)
+				}
+				settle()
 			}
 		}
 	}
@@ -354,6 +365,12 @@ func (wd *lworld) collect() {
 		wd.model(a.Act)
 	}
 	wd.emit(ev)
+}
+
+var blockedState = map[string]bool{
+	"sync.Cond.Wait": true, "chan receive": true, "chan send": true, "select": true,
+	"sync.Mutex.Lock": true, "sync.RWMutex.Lock": true, "sync.RWMutex.RLock": true, "semacquire": true,
+	"sync.WaitGroup.Wait": true,
 }
 
 func (wd *lworld) modelPop(x qa.Act) {
@@ -411,38 +428,49 @@ func bursts(plan []act) []act {
 
 func mkAct(op string) act { return act{Act: qa.Act{Op: op}} }
 
-// next: the plan, then the drain - close (every parked consumer must come back), then take out the
-// residue with a free consumer.
+// next: the plan, then the drain.  The drain is a sequential observation of what the queue holds
+// and says about itself: the accessors the type has (IsClosed / IsCleared / Len), a close (every
+// parked consumer must come back), the residue taken out with PopAnyway by a free consumer until
+// "closed", TryClear, and the accessors again - so that a stranded or lost item is visible even when
+// every reply looked plausible.
 func (wd *lworld) next() (act, bool) {
 	if len(wd.plan) > 0 {
 		a := wd.plan[0]
 		wd.plan = wd.plan[1:]
 		return a, true
 	}
-	switch wd.dstate {
-	case 0:
-		wd.dstate = 1
-		if !wd.m.Closed {
-			return mkAct("close"), true
+	for {
+		if len(wd.dq) > 0 {
+			a := wd.dq[0]
+			wd.dq = wd.dq[1:]
+			return a, true
 		}
-		fallthrough
-	case 1:
-		wd.dstate = 2
-		wd.dleft = wd.m.Len() + 1
-		for c := 1; c <= nCons; c++ {
-			if !wd.busy[c] {
-				wd.dfree = c
-				break
+		switch wd.dstate {
+		case 0:
+			wd.dstate = 1
+			wd.dq = []act{mkAct("isclosed"), mkAct("iscleared"), mkAct("len")}
+			if !wd.m.Closed {
+				wd.dq = append(wd.dq, mkAct("close"))
 			}
-		}
-		fallthrough
-	case 2:
-		if wd.dfree != 0 && wd.dleft > 0 {
-			wd.dleft--
-			return act{Act: qa.Act{Op: "pop", Any: true}, C: wd.dfree}, true
+		case 1:
+			wd.dstate = 2
+			free := 0
+			for c := 1; c <= nCons; c++ {
+				if !wd.busy[c] {
+					free = c
+					break
+				}
+			}
+			if free != 0 {
+				for i := wd.m.Len() + 1; i > 0; i-- {
+					wd.dq = append(wd.dq, act{Act: qa.Act{Op: "pop", Any: true}, C: free})
+				}
+			}
+			wd.dq = append(wd.dq, mkAct("tryclear"), mkAct("iscleared"), mkAct("isclosed"), mkAct("len"))
+		default:
+			return act{}, false
 		}
 	}
-	return act{}, false
 }
 
 // advance issues the next applicable step; false: the world is finished.
@@ -1131,6 +1159,42 @@ func raceList(rng *rand.Rand, kind string) (plan []act) {
 	return append(plan, r)
 }
 
+// raceCtl: the calls that end a queue's life racing producers: {try-close | try-clear | close} x
+// {1-3 adds / prior adds}, with and without parked consumers, on an empty or one-item queue (a
+// closed one for try-clear).  Kinds without TryClose / TryClear get Close.
+func raceCtl(rng *rand.Rand, kind string) (plan []act) {
+	id := 0
+	add := func() qa.Act {
+		id++
+		lane := "req"
+		if kind == "mq" && rng.Intn(3) == 0 {
+			lane = "ctrl"
+		}
+		return qa.Act{Op: "add", Lane: lane, Prior: kind != "syncq" && rng.Intn(3) == 0, V: id}
+	}
+	ctl := "close"
+	if kind == "mq" {
+		ctl = []string{"tryclose", "tryclose", "tryclear", "close"}[rng.Intn(4)]
+	}
+	if rng.Intn(4) == 0 {
+		plan = append(plan, act{Act: add()})
+	}
+	if ctl == "tryclear" && rng.Intn(3) != 0 {
+		plan = append(plan, mkAct([]string{"close", "tryclose"}[rng.Intn(2)]))
+	}
+	for c, n := 1, rng.Intn(5)-2; c <= n; c++ { // 0 (mostly), 1 or 2 consumers parked beforehand
+		plan = append(plan, act{Act: qa.Act{Op: "pop", Any: kind == "syncq" || rng.Intn(2) == 0}, C: c})
+	}
+	r := act{Act: qa.Act{Op: "race"}}
+	r.Acts, r.RC = []qa.Act{{Op: ctl}}, []int{0}
+	for n := 1 + rng.Intn(3); n > 0; n-- {
+		r.Acts, r.RC = append(r.Acts, add()), append(r.RC, 0)
+	}
+	rng.Shuffle(len(r.Acts), func(i, j int) { r.Acts[i], r.Acts[j] = r.Acts[j], r.Acts[i] })
+	r.Delay = skews(rng, len(r.Acts))
+	return append(plan, r)
+}
+
 // racePri: a (nearly) full queue, a consumer that holds the token and Pops, together with Len()
 // pollers, pushers (rejected when full) and other poppers.
 func racePri(rng *rand.Rand, rcap int) (plan []act) {
@@ -1318,7 +1382,11 @@ func main() {
 				rcap = 0
 			}
 			rep := rng.Intn(4)
-			queue(spec{"race", kind, 0, rcap, rep, raceList(rng, kind)})
+			if i%2 == 0 {
+				queue(spec{"race", kind, 0, rcap, rep, raceList(rng, kind)})
+			} else {
+				queue(spec{"racectl", kind, 0, rcap, rep, raceCtl(rng, kind)})
+			}
 		}
 	}
 	flush()
